@@ -144,7 +144,38 @@ fn fold(r: &mut Rng, h: &P) -> Mor {
 }
 
 fn perturb(r: &mut Rng, m: &mut Mor) -> &'static str {
-    match r.below(11) {
+    match r.below(16) {
+        11 if !m.x.0.is_empty() => {
+            m.x.0.pop();
+            "x_domain_too_small"
+        }
+        12 if m.x.1 > 0 => {
+            let v = r.below(m.x.1);
+            m.x.0.push(v);
+            "x_domain_too_large"
+        }
+        13 if m.w.1 > 0 => {
+            let v = r.below(m.w.1);
+            m.w.0.push(v);
+            "w_domain_too_large"
+        }
+        14 => {
+            // codomain declared one smaller while every entry still fits
+            if m.w.1 > 0 && m.w.0.iter().all(|&v| v + 1 < m.w.1) {
+                m.w.1 -= 1;
+                "w_codomain_too_small"
+            } else if m.x.1 > 0 && m.x.0.iter().all(|&v| v + 1 < m.x.1) {
+                m.x.1 -= 1;
+                "x_codomain_too_small"
+            } else {
+                "unperturbed"
+            }
+        }
+        15 => {
+            m.w.1 += 1;
+            m.x.1 += 1;
+            "both_codomains_too_large"
+        }
         0 if !m.w.0.is_empty() && m.w.1 > 1 => {
             let k = r.below(m.w.0.len());
             m.w.0[k] = (m.w.0[k] + 1 + r.below(m.w.1 - 1)) % m.w.1;
@@ -227,6 +258,17 @@ impl C18 {
         }
         let (fail, w_cod_wrong, x_cod_wrong) = failing(m);
         let (lg, lh) = (to_strict(&m.g).h, to_strict(&m.h).h);
+        // the monomorphism test has no naturality premise: ask it of every pair of maps, accepted or not
+        {
+            let raw = HypergraphArrow { source: to_strict(&m.g).h, target: to_strict(&m.h).h, w: ff(m.w.0.clone(), m.w.1), x: ff(m.x.0.clone(), m.x.1) };
+            let mono = injective(&m.w.0) && injective(&m.x.0);
+            if !fail.is_empty() {
+                ctx.class(if mono { "injective_pair_that_is_no_morphism" } else { "non_injective_pair_that_is_no_morphism" });
+            }
+            if let Some(b) = lib(ctx, "is_monomorphism(unchecked)", class, &input, || raw.is_monomorphism()) {
+                ctx.check(b == mono, &format!("is_monomorphism/both-maps-injective/value/{}", if fail.is_empty() { "natural" } else { "not_natural" }), || json!({"input": input(), "observed": b, "expected": mono}));
+            }
+        }
         let res = guard(|| HypergraphArrow::new(lg, lh, ff(m.w.0.clone(), m.w.1), ff(m.x.0.clone(), m.x.1)));
         let arrow = match must_return(ctx, "HypergraphArrow::new", class, res, input) {
             Some(a) => a,
@@ -273,6 +315,7 @@ impl C18 {
                     InvalidHypergraphArrow::NotNaturalT => ('T', fail.contains(&'T')),
                 };
                 ctx.count(&format!("rejected:{}", cond));
+                ctx.count(&format!("variant:{:?}", v));
                 ctx.check(ok, &format!("HypergraphArrow::new/rejection-names-a-failing-condition/value/{}", class), || {
                     json!({"input": input(), "observed": format!("{:?}", v), "actually_failing": format!("{:?}", fail)})
                 });
@@ -282,7 +325,17 @@ impl C18 {
     }
 }
 
-fn corpus() -> Vec<(&'static str, Mor)> {
+fn long_path(n: usize) -> P {
+    POh { w: vec![0; n + 1], e: (0..n).map(|k| PEdge { l: (k % 3) as u64, s: vec![k], t: vec![k + 1] }).collect(), s: vec![], t: vec![] }
+}
+
+/// built once per process
+fn corpus() -> &'static Vec<(&'static str, Mor)> {
+    static C: std::sync::OnceLock<Vec<(&'static str, Mor)>> = std::sync::OnceLock::new();
+    C.get_or_init(corpus_build)
+}
+
+fn corpus_build() -> Vec<(&'static str, Mor)> {
     let e = |l: u64, s: &[usize], t: &[usize]| PEdge { l, s: s.to_vec(), t: t.to_vec() };
     let hg = |w: Vec<u32>, e: Vec<PEdge<u64>>| POh { w, e, s: vec![], t: vec![] };
     // path 0 -a-> 1 -b-> 2 -c-> 3, plus shortcut 0 -d-> 3
@@ -300,6 +353,23 @@ fn corpus() -> Vec<(&'static str, Mor)> {
         ("outside_cycle", Mor { g: hg(vec![0], vec![]), h: cyc.clone(), w: (vec![0], 3), x: (vec![], 4) }),
         ("target_empty", Mor { g: hg(vec![], vec![]), h: hg(vec![], vec![]), w: (vec![], 0), x: (vec![], 0) }),
         ("untouched_nodes", Mor { g: hg(vec![1], vec![]), h: hg(vec![0, 1, 0], vec![e(0, &[0], &[2])]), w: (vec![1], 3), x: (vec![], 1) }),
+        // a path of 200 operations: its two end nodes only (the path between them is all outside), everything but
+        // the middle operation (the path leaves and re-enters once, 100 steps in), and a prefix (convex)
+        ("long_path_endpoints", {
+            let h = long_path(200);
+            Mor { g: hg(vec![0, 0], vec![]), h: h.clone(), w: (vec![0, 200], 201), x: (vec![], 200) }
+        }),
+        ("long_path_without_its_middle_operation", {
+            let h = long_path(200);
+            let keep: Vec<usize> = (0..200).filter(|&k| k != 100).collect();
+            let g = hg(vec![0; 201], keep.iter().map(|&k| h.e[k].clone()).collect());
+            Mor { g, h: h.clone(), w: ((0..201).collect(), 201), x: (keep, 200) }
+        }),
+        ("long_path_prefix", {
+            let h = long_path(200);
+            let g = hg(vec![0; 121], (0..120).map(|k| h.e[k].clone()).collect());
+            Mor { g, h: h.clone(), w: ((0..121).collect(), 201), x: ((0..120).collect(), 200) }
+        }),
     ]
 }
 
@@ -337,6 +407,27 @@ impl Monitor for C18 {
             ("class:leaves_and_reenters_through_two_outside_edges", 1),
             ("class:source_segment_boundary_shifted", 30),
             ("class:target_segment_boundary_shifted", 30),
+            ("class:w_entry_changed", 30),
+            ("class:x_entry_changed", 30),
+            ("class:node_label_changed", 30),
+            ("class:edge_label_changed", 30),
+            ("class:sources_swapped", 30),
+            ("class:targets_swapped", 30),
+            ("class:w_codomain_too_large", 30),
+            ("class:x_codomain_too_large", 30),
+            ("class:w_domain_too_small", 30),
+            ("class:x_domain_too_small", 30),
+            ("class:x_domain_too_large", 30),
+            ("class:w_domain_too_large", 30),
+            ("class:w_codomain_too_small", 20),
+            ("class:both_codomains_too_large", 30),
+            ("class:injective_pair_that_is_no_morphism", 100),
+            ("class:non_injective_pair_that_is_no_morphism", 100),
+            ("class:long_path_endpoints", 1),
+            ("class:long_path_without_its_middle_operation", 1),
+            ("class:long_path_prefix", 1),
+            ("variant:TypeMismatchW", 20),
+            ("variant:TypeMismatchX", 20),
         ]
     }
     fn run_case(&self, idx: u64, r: &mut Rng, ctx: &mut Ctx) {
